@@ -142,7 +142,7 @@ func genC03(t *rapid.T) c03Case {
 	case 0, 1:
 		c.NilParam = true
 	case 2, 3:
-		c.Skew = rapid.SampledFrom([]uint64{11, 12, 100, 1 << 32, 1<<64 - 1}).Draw(t, "badSkew")
+		c.Skew = gen.RefusedSkew(t)
 	case 4:
 		if rapid.Bool().Draw(t, "which") {
 			c.Digits = rapid.SampledFrom([]int{0, 11, 255}).Draw(t, "badDigits")
@@ -287,7 +287,7 @@ func genC04(t *rapid.T) c04Case {
 	case 0, 1:
 		c.NilParam = true
 	case 2, 3, 4:
-		c.Skew = rapid.SampledFrom([]uint64{11, 1000, 1 << 32, 1<<63 - 1, 1 << 63, 1<<64 - 1}).Draw(t, "badSkew")
+		c.Skew = gen.RefusedSkew(t)
 	case 5:
 		if rapid.Bool().Draw(t, "which") {
 			c.Digits = rapid.SampledFrom([]int{0, 11, 255}).Draw(t, "badDigits")
